@@ -260,6 +260,10 @@ fn command_go(
                 depth,
             );
 
+            // The search is over: a GUI that reads the bestmove line may send its
+            // next command at once, so the flag must already be down
+            search_is_running.store(false, Relaxed);
+
             if let Some(best_move) = best_move {
                 println!("bestmove {}", best_move.uci_notation());
             } else {
@@ -268,7 +272,6 @@ fn command_go(
 
             #[cfg(daniel729_chess_verif)]
             crate::verif::sched("after_bestmove");
-            search_is_running.store(false, Relaxed);
             *current_game = None;
         }
     });
